@@ -425,6 +425,10 @@ def isolation_scenario(quick):
     fw = dict(transfer_model="EH", lnk_min=-8.0, lnk_max=4.0, dlnk=0.25, Mmin=10.0, Mmax=14.0, dlog10m=0.5, z=1.0, mdef_model="SOCritical", hmf_model="Tinker08")
     cfgs += [{"kind": "framework", "cls": "MassFunction", "kwargs": fw, "cosmo": {"class": "x", "clone_of": "Planck15", "Om0": 0.27}, "quantities": ["dndm", "halo_overdensity_mean", "power"], "note": "MassFunction, Planck15.clone(Om0=0.27)"},
              {"kind": "framework", "cls": "MassFunction", "kwargs": fw, "cosmo": {"class": "x", "clone_of": "Planck15", "Om0": 0.33}, "quantities": ["dndm", "halo_overdensity_mean", "power"], "note": "MassFunction, Planck15.clone(Om0=0.33): same astropy name"}]
+    # the non-linear spectrum is found by a numerical search: its result must not depend on earlier searches in the same process
+    tw = dict(transfer_model="EH", lnk_min=-8.0, lnk_max=5.0, dlnk=0.1)
+    cfgs += [{"kind": "framework", "cls": "Transfer", "kwargs": dict(tw, z=z_), "cosmo": {"class": "x", "clone_of": "Planck15", "Om0": 0.3}, "quantities": ["nonlinear_power", "nonlinear_delta_k"],
+              "note": f"Transfer z={z_}: HALOFIT after other HALOFIT evaluations"} for z_ in (0.0, 3.0, 1.0, 0.0)]
     if not quick:
         cfgs += [{"kind": "growth", "model": "CambGrowth", "cosmo": L(), "z": [0.0, 1.0], "note": "CambGrowth flat"}, {"kind": "growth", "model": "CambGrowth", "cosmo": L(Ode0=0.4), "z": [0.0, 1.0], "note": "CambGrowth same Om0, Ode0=0.4"}]
     bad = isolation.check_sequence(cfgs, "isolation")
